@@ -182,6 +182,24 @@ def count_responses(stream):
                 return n
 
 
+def leftover_after_responses(stream):
+    """The bytes after the last complete response of a server byte stream."""
+    i = 0
+    last = 0
+    while True:
+        j = stream.find(b"\n", i)
+        if j < 0:
+            return stream[last:]
+        line = stream[i:j]
+        i = j + 1
+        if line == b"OK" or line.startswith(b"ACK "):
+            last = i
+        elif line.startswith(b"binary: ") and line[8:].isdigit():
+            i += int(line[8:]) + 1
+            if i > len(stream):
+                return stream[last:]
+
+
 # ------------------------------------------------------------------------------- expectations
 
 def payload(n):
@@ -221,9 +239,9 @@ def gen_request(rng, rid, allow_fail=True, allow_bin=True):
     for k in range(n):
         r = rng.random()
         if allow_fail and r < 0.12:
-            specs.append(spec("fail", str(rng.choice([1, 2, 5, 50]))))
+            specs.append(spec("fail", str(rng.choice([1, 2, 5, 50])), f"r{rid}c{k}"))
         elif allow_bin and r < 0.22:
-            specs.append(spec("bin", str(rng.choice([0, 1, 3, 20, 5000]))))
+            specs.append(spec("bin", str(rng.choice([0, 1, 3, 20, 5000])), f"r{rid}c{k}"))
         else:
             specs.append(spec("echo", f"r{rid}", f"c{k}"))
     return f"{kind}{rid}:" + ",".join(specs), kind, specs
@@ -363,14 +381,14 @@ def judge_replies(r, info):
                 exp = expected_result(kind, specs)
                 if got != exp:
                     out.append(f"request {rid} ({kind}: {[spec_line(s) for s in specs]}) resolved with {got[:300]}; the server's reply to it is {exp[:300]}")
-    # issue order
+    # issue order: the request lines on the wire are exactly the requests in the order they were issued
     want = []
     for rid in sorted(info["requests"]):
         kind, specs = info["requests"][rid]
-        want.append(spec_line(specs[0]).encode())
-    seen = [l for _, l in t.written_lines() if l not in (b"idle", b"noidle", b"command_list_ok_begin", b"command_list_end") and not l.startswith(b"password ")]
-    firsts = [l for l in seen if l in want]
-    idx = [want.index(l) for l in firsts]
-    if idx != sorted(idx):
-        out.append(f"request lines reached the wire out of issue order: {firsts[:10]}")
+        ls = [spec_line(sp).encode() for sp in specs]
+        want += ls if len(ls) == 1 else [b"command_list_ok_begin"] + ls + [b"command_list_end"]
+    seen = [l for _, l in t.written_lines() if l not in (b"idle", b"noidle") and not l.startswith(b"password ")]
+    if seen != want[:len(seen)]:
+        k = next(i for i, (a, c) in enumerate(zip(seen, want + [None] * len(seen))) if a != c)
+        out.append(f"request lines reached the wire out of issue order: line {k} is {seen[k]!r}, issue order demands {want[k] if k < len(want) else None!r}")
     return out
